@@ -57,6 +57,20 @@ fn result_digest<K: Kernel<D, Scalar = f64>, const D: usize>(verts: &[Vertex<f64
     }
 }
 
+/// the same through the statistics-returning constructor (it has its own build closure and bulk loop)
+fn result_digest_stats<K: Kernel<D, Scalar = f64>, const D: usize>(verts: &[Vertex<f64, i32, D>], o: ConstructionOptions) -> String {
+    match guarded(|| DelaunayTriangulation::<K, i32, (), D>::with_topology_guarantee_and_options_with_construction_statistics(&K::default(), verts, TopologyGuarantee::PLManifold, o)) {
+        Ok(Ok((dt, _))) => {
+            let s = snap_of(&dt);
+            let mut surv: Vec<(Vec<u64>, String)> = s.verts.iter().map(|v| (v.c.iter().map(|x| x.to_bits()).collect(), v.data.clone())).collect();
+            surv.sort();
+            format!("Ok:{:x}", digest(&format!("{:?}|{:?}", s.cell_coord_sets(), surv)))
+        }
+        Ok(Err(_)) => "Err".into(),
+        Err(_) => "panic".into(),
+    }
+}
+
 fn det_vertices<const D: usize>(pts: &[[f64; D]]) -> Vec<Vertex<f64, i32, D>> {
     pts.iter().enumerate().map(|(i, c)| mk_vertex::<i32, D>(*c, 1 + i as u128, Some(i as i32))).collect()
 }
@@ -102,6 +116,20 @@ fn check_input<K: Kernel<D, Scalar = f64> + Send + 'static, const D: usize>(rep:
                         let dp = result_digest::<K, D>(&pv, o);
                         if dp != d0 {
                             rep.violation(Finding { signature: json!({"check": "depends_on_input_order", "order": format!("{order:?}"), "dedup": format!("{dedup:?}").split(' ').next(), "D": D, "general_position": gp}), description: format!("{label}: listing the same vertices in the order {perm:?} changes the result ({d0} vs {dp})"), replay: replay(json!({"options": label, "perm": perm})) });
+                            break;
+                        }
+                    }
+                }
+                // (d') the statistics-returning constructor: order independence over the reversed and the rotated listing
+                if !matches!(order, InsertionOrderStrategy::Input) {
+                    let s0 = result_digest_stats::<K, D>(&base, o);
+                    let n = base.len();
+                    for (pname, perm) in [("reversed", (0..n).rev().collect::<Vec<usize>>()), ("rotated", (0..n).map(|i| (i + 1) % n).collect::<Vec<usize>>())] {
+                        let pv: Vec<Vertex<f64, i32, D>> = perm.iter().map(|&i| base[i]).collect();
+                        cn.comparisons.fetch_add(1, Ordering::Relaxed);
+                        let sp = result_digest_stats::<K, D>(&pv, o);
+                        if sp != s0 {
+                            rep.violation(Finding { signature: json!({"check": "stats_constructor_depends_on_input_order", "order": format!("{order:?}"), "dedup": format!("{dedup:?}").split(' ').next(), "D": D, "general_position": gp}), description: format!("{label}: the statistics-returning constructor gives a different result for the {pname} listing of the same vertices ({s0} vs {sp})"), replay: replay(json!({"options": label, "perm": perm, "constructor": "with_construction_statistics"})) });
                             break;
                         }
                     }
